@@ -13,7 +13,7 @@ from . import common
 
 LEVEL = 'other'
 EXPLANATION = (
-    'Static analysis. Decides the local premises of "the model read off an open saturated branch satisfies every node on it": (R1) every expansion rule is invertible -- some extension satisfiable => node satisfiable -- on every valuation / value set under the logic\'s own extracted semantics; (R2) the value _read_node assigns to every open literal set satisfies it (C05.R3) and open literal sets are satisfiable (C05.R2); (R3) the reader covers every node kind, read_branch visits every node and then finishes, Tableau.finish builds models only for an invalid tableau and only from open branches, and is_countermodel_to (folded) means premises designated and conclusion not. Saturation/fairness ("completed means no applicable rule instance is left") is declined: it depends on the interleaving of rule applications. Added since: (R4) fairness necessary condition on the counters, (R5) the evaluator clauses C08.R1-R4, (R6) the applicability bookkeeping folds of C04.R7 (no tracked node/constant/world is lost; the Serial rule offers every unserial world that carries sentences) -- necessary conditions of saturation that are visible in single definitions. (R8) no starvation behind the fairness gate: rules whose target producer is gated by NodeCount.isleast are folded over every small state of applied (node, world) pairs -- whenever some node still has an accessible world it was not applied to, the rule offers a target.')
+    'Static analysis. Decides the local premises of "the model read off an open saturated branch satisfies every node on it": (R1) every expansion rule is invertible -- some extension satisfiable => node satisfiable -- on every valuation / value set under the logic\'s own extracted semantics; (R2) the value _read_node assigns to every open literal set satisfies it (C05.R3) and open literal sets are satisfiable (C05.R2); (R3) the reader covers every node kind, read_branch visits every node and then finishes, Tableau.finish builds models only for an invalid tableau and only from open branches, and is_countermodel_to (folded) means premises designated and conclusion not. Saturation/fairness ("completed means no applicable rule instance is left") is declined: it depends on the interleaving of rule applications. Added since: (R4) fairness necessary condition on the counters, (R5) the evaluator clauses C08.R1-R4, (R6) the applicability bookkeeping folds of C04.R7 (no tracked node/constant/world is lost; the Serial rule offers every unserial world that carries sentences) -- necessary conditions of saturation that are visible in single definitions. (R8) no starvation behind the fairness gate: rules whose target producer is gated by NodeCount.isleast are folded over every small state of applied (node, world) pairs -- whenever some node still has an accessible world it was not applied to, the rule offers a target. (R9) the identity rule folded over branches with several worlds (C01.R9): a result present at another world does not switch a substitution off.')
 TRUSTED = ['CPython ast', 'sa.model / sa.schema / sa.tables extractors', 'sa.minieval']
 ASSUMPTIONS = ['saturation of completed tableaux is NOT decided (declined)']
 
